@@ -52,6 +52,22 @@ def present_value(ki: int, kind: int, n: int, b: bool, s: str, other: int, dflt:
     opt = Option(KEYS[ki], default=12345) if dflt else Option(KEYS[ki])
     got = outcome(lambda: opt(o))
     note("options", o, "key", KEYS[ki], "got", got)
+    # a default that could NOT be produced from these options is irrelevant while the key is present
+    with untraced():
+        def boom():
+            raise RuntimeError("factory must not run")
+
+        @dataset.nocache
+        def needs_missing(z: int = Option("NOT_THERE")):
+            return z
+
+        unusable = [Option(KEYS[ki], default=Option("NOT_THERE")), Option(KEYS[ki], default="t{NOT_THERE}"),
+                    Option(KEYS[ki], default_factory=boom), Option(KEYS[ki], default=needs_missing)]
+    for u in unusable:
+        g2 = outcome(lambda: u(o))
+        if g2[0] != "ok" or not same(g2[1], v):
+            note("a present key must win over a default that cannot be evaluated", g2)
+            return 0
     if got[0] != "ok" or not same(got[1], v):
         return 0
     # validate / keys agree that the key is there
@@ -266,9 +282,12 @@ class NS:
     D = Option.auto(default="t{NS.A}", doc="templated default")
     E = Option("E", domain=_positive, type=int, doc="doc of E")
 
+    P = "r{NS.A}-{NS.B}"                   # a plain string member is a templated default
+
     class SUB:
         F = 2
         G = Option("G", domain=[7, 8])
+        Q = "q{NS.A}"
 
 
 @Option.namespace
@@ -284,6 +303,9 @@ _NS_MEMBERS = [
     (lambda: NS.D, lambda: Option("NS.D", default="t{NS.A}")),
     (lambda: NS.E, lambda: Option("NS.E", domain=_positive, type=int)),
     (lambda: NS.SUB.F, lambda: Option("NS.SUB.F", default=2)),
+    (lambda: NS.P, lambda: Option("NS.P", default="r{NS.A}-{NS.B}")),
+    (lambda: NS.SUB.Q, lambda: Option("NS.SUB.Q", default="q{NS.A}")),
+    (lambda: OUTER.IN.P, lambda: Option("OUTER.NS.P", default="r{NS.A}-{NS.B}")),
     (lambda: NS.SUB.G, lambda: Option("NS.SUB.G", domain=[7, 8])),
     (lambda: OUTER.IN.C, lambda: Option("OUTER.NS.C", default=Option("NS.A"), domain=[1, 2, 3])),
     (lambda: OUTER.IN.E, lambda: Option("OUTER.NS.E", domain=_positive, type=int)),
@@ -300,7 +322,7 @@ _NS_MEMBERS = [
 def namespace_equivalence(mi: int, kind: int, n: int, b: bool, s: str, pa: bool, a: int, pv: bool) -> int:
     if not plain(s):
         return 1
-    if mi == 3 and not (-9 <= a <= 99):
+    if mi in (3, 6, 7, 8) and not (-9 <= a <= 99):
         return 1      # NS.D renders NS.A with str() into its templated default: bounded (int-to-string)
     member = _NS_MEMBERS[mi][0]()
     with untraced():
